@@ -34,7 +34,7 @@ def gen(rep, tier, suites, clauses):
     for s in suites:
         r = engine.run_tlc("Gen_Table", _cfg(s), timeout=1200)
         rep.add_mc(r, f"Gen_Table suite {s}")
-        cases = [c for _, c in r.prints]
+        cases = [dict(c, _n=i) for i, (_, c) in enumerate(r.prints)]
         cp, op = os.path.join(sc, f"table_{s}.json"), os.path.join(sc, f"table_{s}_out.json")
         json.dump(cases, open(cp, "w"))
         rep.sample({"suite": "table." + s, "case": cases[len(cases) // 2]})
